@@ -4,7 +4,8 @@ from ..common import *
 from .. import proofgate
 
 THEOREMS = ["C19_fft_rec_is_dft", "C19_domain_roots", "C19_fft_is_evaluation", "C19_coset_fft_is_evaluation",
-            "C19_ifft_is_scaled_dft", "C19_parallel_butterfly_serial", "C19_poly_ops", "C19_ruffini", "C19_fft_rec_inverse", "C19_ifft_fft", "C19_fft_ifft"]
+            "C19_ifft_is_scaled_dft", "C19_parallel_butterfly_serial", "C19_poly_ops", "C19_ruffini", "C19_fft_rec_inverse", "C19_ifft_fft", "C19_fft_ifft",
+            "C19_vanishing_iff_domain", "C19_lagrange_is_interpolant", "C19_barycentric_is_interpolant", "C19_batch_inversion_montgomery"]
 
 W32 = 0x16a2a19edfe81f20d09b681922c813b4b63683508c2280b93829971f439f0d2b
 
